@@ -122,7 +122,27 @@ def run(ctx):
                 if nbad <= 3:
                     viol(f"{name}: {a.string!r} == {b.string!r} but hash/set/dict (of the versions or of constraints and ranges built on them) treat them as different",
                          inputs=dict(version_class=name, a=a.string, b=b.string), observed=dict(hash_a=ha, hash_b=hb, set_size=len({a, b})))
-        per_class[name] = dict(values=len(values), pairs=len(pairs), equal_pairs=neq, violating=nbad, modelled=name in modelled)
+        # ---- the same version written with the digits of another script (implementation only: the models are ASCII)
+        nscript = 0
+        for v in values[: (60 if ctx.tier == "quick" else 600)]:
+            for t in gens.digit_script_variants(v.string):
+                try:
+                    w = cls(t)
+                    if not (w == v):
+                        continue
+                    hw, hv = hash(w), hash(v)
+                except Exception:
+                    continue
+                evals += 1
+                nscript += 1
+                if hw != hv or len({w, v}) != 1:
+                    if known_for(name, w, v):
+                        continue
+                    nbad += 1
+                    if nbad <= 3:
+                        viol(f"{name}: {w.string!r} == {v.string!r} (digits of another script) but their hashes differ",
+                             inputs=dict(version_class=name, a=w.string, b=v.string), observed=dict(hash_a=hw, hash_b=hv))
+        per_class[name] = dict(values=len(values), pairs=len(pairs), equal_pairs=neq, violating=nbad, modelled=name in modelled, other_script_equal_pairs=nscript)
         if name in modelled:
             nreq, d, _ = schemes.correspondence(ctx, cls, [], pairs[: (600 if ctx.tier == "quick" else 20000)])
             evals += nreq
